@@ -502,7 +502,7 @@ pub fn hcv_case(ci: &[usize], ki: &[usize], map_t: &[i64; 8], map_p: &[i64; 8], 
             Err(p) => mc::violation(panic_site("hcv", "public-functions", &p), format!("homogeneity_score/completeness_score/v_measure_score panicked: {}; {}", p.brief(), input())),
         }
     }
-    mc::describe(|| json!({"labels_true": yt, "labels_pred": yp, "contingency": t, "library": {"homogeneity": h, "completeness": c, "v_measure": v}, "definition": {"homogeneity": r.h, "completeness": r.c, "v_measure": r.v}}));
+    mc::describe(|| json!({"labels_true": yt, "labels_pred": yp, "n": r.n, "contingency": t, "library": {"homogeneity": h, "completeness": c, "v_measure": v}, "definition": {"homogeneity": r.h, "completeness": r.c, "v_measure": r.v}}));
     [h, c, v]
 }
 
